@@ -166,12 +166,64 @@ class lean_lock:
             self.f.close()
 
 
+BUILD_RSS_LIMIT_KB = 10 * 1024 * 1024     # a single `lean` process of this project needs < 2 GB; a generated `decide +kernel`
+BUILD_WALL_LIMIT_S = 1500                 # obligation that has become false can blow up instead of failing — cut it off
+
+
+def _descendants(pid):
+    kids = {}
+    for d in os.listdir("/proc"):
+        if d.isdigit():
+            try:
+                with open(f"/proc/{d}/stat") as f:
+                    parts = f.read().rsplit(")", 1)[1].split()
+                kids.setdefault(int(parts[1]), []).append(int(d))
+            except OSError:
+                pass
+    out, todo = [], [pid]
+    while todo:
+        x = todo.pop()
+        for k in kids.get(x, []):
+            out.append(k)
+            todo.append(k)
+    return out
+
+
+def _rss_kb(pid):
+    try:
+        with open(f"/proc/{pid}/status") as f:
+            for line in f:
+                if line.startswith("VmRSS:"):
+                    return int(line.split()[1])
+    except OSError:
+        pass
+    return 0
+
+
 def build(targets):
-    """lake build under the file lock"""
+    """lake build under the file lock, with a watchdog: a compiler process that grows beyond BUILD_RSS_LIMIT_KB (or a build
+    that runs beyond BUILD_WALL_LIMIT_S) is killed, which makes the build fail like any other broken obligation"""
+    import tempfile
     with lean_lock():
         t0 = time.time()
-        p = subprocess.run(["lake", "build", *targets], cwd=LEAN, capture_output=True, text=True)
-        return p.returncode == 0, (p.stdout + p.stderr)[-6000:], time.time() - t0
+        with tempfile.TemporaryFile("w+") as out:
+            p = subprocess.Popen(["lake", "build", *targets], cwd=LEAN, stdout=out, stderr=subprocess.STDOUT, text=True)
+            killed = []
+            while p.poll() is None:
+                time.sleep(1.0)
+                over = time.time() - t0 > BUILD_WALL_LIMIT_S
+                for k in _descendants(p.pid):
+                    if over or _rss_kb(k) > BUILD_RSS_LIMIT_KB:
+                        try:
+                            os.kill(k, 9)
+                            killed.append(k)
+                        except OSError:
+                            pass
+            out.seek(0)
+            log = out.read()
+        if killed:
+            log += f"\n[watchdog] killed {len(killed)} compiler process(es): memory above {BUILD_RSS_LIMIT_KB // 1024} MB or build above {BUILD_WALL_LIMIT_S} s\n"
+        return p.returncode == 0 and not killed, log[-6000:], time.time() - t0
 
 
 def theorem_names(prop, path=None):
